@@ -108,6 +108,9 @@ def check(ctx, kw, sig, _derived=False):
         for tag, fn in (("with_port(default)", lambda: u.with_port(DEFAULT[sch]) if sch in DEFAULT else None), ("with_scheme", lambda: u.with_scheme("https" if sch != "https" else "http")),
                         ("with_port(443)+with_scheme(https)", lambda: u.with_port(443).with_scheme("https")), ("with_port(0)", lambda: u.with_port(0)),
                         ("with_query", lambda: u.with_query({"ключ": "знач #1"})), ("update_query", lambda: u.update_query("zz=1&é=ü ö")), ("extend_query", lambda: u.extend_query([("k k", "v&v")])),
+                        # mapping queries whose values are LISTS (several values, one value, none at all next to other keys)
+                        ("with_query(lists)", lambda: u.with_query({"тег": [], "арг": ["вал 1", "вал 2"], "z": ()})), ("update_query(lists)", lambda: u.update_query({"порожній": [], "арг": "x"})),
+                        ("extend_query(lists)", lambda: u.extend_query({"e": [], "k": ["1"], "м": ("а б",)})),
                         ("mod", lambda: u % {"m": "1"}), ("with_query(None)", lambda: u.with_query(None)), ("without_query_params", lambda: u.extend_query(zzq="1").without_query_params("zzq")),
                         ("with_fragment", lambda: u.with_fragment("фраг мент")), ("with_fragment(None)", lambda: u.with_fragment(None)), ("div", lambda: u / "доп сегмент"),
                         ("with_user", lambda: u.with_user("новий")), ("with_host", lambda: u.with_host("другой.example")), ("with_name", lambda: u.with_name("имя.txt")),
